@@ -1,7 +1,7 @@
 
 
 //@@ octo-squirrel/src/protocol/address.rs:9-13  enum Address  sha=d701f69e752e0952
-#[derive(PartialEq, Eq, Clone)]
+#[derive(PartialEq, Eq)]
 pub enum Address {
     Domain(String, u16),
     Socket(SocketAddr),
@@ -1058,6 +1058,9 @@ fn fnv__fnv1a32(data: &[u8]) -> u32 {
         hash
     }
 
+//@@ octo-squirrel/src/protocol/vmess.rs:13-13  const VERSION  sha=ed005120139ab396
+pub const vmessp__VERSION: u8 = 1;
+
 //@@ octo-squirrel/src/protocol/vmess/aead/kdf.rs:6-6  const SALT_LENGTH_KEY  sha=342c6667ca5461c2
 #[verifier::external_body] exec const kdf__SALT_LENGTH_KEY: &'static [u8] ensures kdf__SALT_LENGTH_KEY@ =~= seq![86u8, 77u8, 101u8, 115u8, 115u8, 32u8, 72u8, 101u8, 97u8, 100u8, 101u8, 114u8, 32u8, 65u8, 69u8, 65u8, 68u8, 32u8, 75u8, 101u8, 121u8, 95u8, 76u8, 101u8, 110u8, 103u8, 116u8, 104u8] { b"VMess Header AEAD Key_Length" }
 
@@ -1170,3 +1173,332 @@ fn encrypt__open_header(key: &[u8], src: &mut BytesMut) -> Result<Option<Vec<u8>
     cursor.into_inner().advance(pos as usize);
     Ok(Some(header_bytes))
 }
+
+//@@ octo-squirrel-server/src/server/template.rs:39-43  mod message / enum InboundIn  sha=900b92278fa20e17
+pub enum InboundIn {
+        ConnectTcp(BytesMut, Address),
+        RelayTcp(BytesMut),
+        RelayUdp(BytesMut, Address),
+    }
+
+//@@ octo-squirrel-server/src/server/template.rs:71-74  mod message / enum OutboundIn  sha=8f4f430e0a7dd220
+pub enum OutboundIn {
+        Tcp(BytesMut),
+        Udp((BytesMut, SocketAddr)),
+    }
+
+//@@ octo-squirrel-server/src/server/template.rs:76-83  mod message / impl From for BytesMut  sha=836a0617d15043fc
+impl From<OutboundIn> for BytesMut {
+        fn from(value: OutboundIn) -> Self {
+            match value {
+                OutboundIn::Tcp(bytes) => bytes,
+                OutboundIn::Udp((bytes, _)) => bytes,
+            }
+        }
+    }
+
+//@@ octo-squirrel-server/src/server/vmess.rs:37-40  enum DecodeState  sha=c97ebb9f52444016
+enum vsrv__DecodeState {
+    Init,
+    Ready(RequestHeader, ServerSession, Box<AEADBodyCodec>),
+}
+
+//@@ octo-squirrel-server/src/server/vmess.rs:42-45  enum EncodeState  sha=23b179cf3462b1cd
+enum vsrv__EncodeState {
+    Init,
+    Ready(Box<AEADBodyCodec>),
+}
+
+//@@ octo-squirrel-server/src/server/vmess.rs:47-53  struct ServerAeadCodec  sha=9184cf7c0e48a02e
+pub struct ServerAeadCodec {
+    keys: Vec<[u8; 16]>,
+    decode_state: vsrv__DecodeState,
+    encode_state: vsrv__EncodeState,
+    /// whether the item that carries the target address has been delivered
+    connected: bool,
+}
+
+//@@ octo-squirrel-server/src/server/vmess.rs:55-116  impl ServerAeadCodec  sha=044ec0173ea6c4ec
+impl ServerAeadCodec {
+    fn encode(
+        item: BytesMut,
+        dst: &mut BytesMut,
+        request_header: &RequestHeader,
+        session: &mut ServerSession,
+        encoder: &mut AEADBodyCodec,
+    ) -> anyhow::Result<()> {
+        match request_header.command {
+            RequestCommand::TCP => encoder.encode_payload(item, dst, session).map_err(|e| verif_err()),
+            RequestCommand::UDP => encoder.encode_packet(item, dst, session).map_err(|e| verif_err()),
+        }
+    }
+
+    fn decode_header(
+        src: &mut BytesMut,
+        header: &mut RequestHeader,
+        session: &mut ServerSession,
+        decoder: &mut AEADBodyCodec,
+    ) -> anyhow::Result<Option<InboundIn>> {
+        match header.command {
+            RequestCommand::TCP => {
+                if let Some(msg) = decoder.decode_payload(src, session).map_err(|e| verif_err())? {
+                    Ok(Some(InboundIn::ConnectTcp(msg, header.address.clone())))
+                } else {
+                    Ok(None)
+                }
+            }
+            RequestCommand::UDP => {
+                if let Some(msg) = decoder.decode_packet(src, session).map_err(|e| verif_err())? {
+                    Ok(Some(InboundIn::RelayUdp(msg, header.address.clone())))
+                } else {
+                    Ok(None)
+                }
+            }
+        }
+    }
+
+    fn decode_body(
+        src: &mut BytesMut,
+        header: &mut RequestHeader,
+        session: &mut ServerSession,
+        decoder: &mut AEADBodyCodec,
+    ) -> anyhow::Result<Option<InboundIn>> {
+        match header.command {
+            RequestCommand::TCP => {
+                if let Some(msg) = decoder.decode_payload(src, session).map_err(|e| verif_err())? {
+                    Ok(Some(InboundIn::RelayTcp(msg)))
+                } else {
+                    Ok(None)
+                }
+            }
+            RequestCommand::UDP => {
+                if let Some(msg) = decoder.decode_packet(src, session).map_err(|e| verif_err())? {
+                    Ok(Some(InboundIn::RelayUdp(msg, header.address.clone())))
+                } else {
+                    Ok(None)
+                }
+            }
+        }
+    }
+}
+
+//@@ octo-squirrel-server/src/server/vmess.rs:118-151  impl Encoder for ServerAeadCodec  sha=4046402ed276a29b
+impl ServerAeadCodec {
+
+    fn encode_item(&mut self, item: OutboundIn, dst: &mut BytesMut) -> Result<(), anyhow::Error> {
+        if let vsrv__DecodeState::Ready(ref request_header, ref mut session, _) = self.decode_state {
+            match self.encode_state {
+                vsrv__EncodeState::Init => {
+                    const NONCE_SIZE: usize = 12;
+                    let header_len_key = kdf__kdf16(&session.response_body_key, vec![kdf__SALT_AEAD_RESP_HEADER_LEN_KEY]);
+                    let cipher = Aes128Gcm::new_from_slice(&header_len_key)?;
+                    let header_len_iv: [u8; NONCE_SIZE] = kdf__kdfn(&session.response_body_iv, vec![kdf__SALT_AEAD_RESP_HEADER_LEN_IV]);
+                    let option = RequestOption::get_mask(&request_header.option);
+                    let header: [u8; 4] = [session.response_header, option, 0, 0];
+                    dst.extend_from_slice(
+                        &cipher
+                            .encrypt(&header_len_iv.into(), Payload { msg: &(header.len() as u16).v_to_be_bytes(), aad: &[] })
+                            .map_err(|e| verif_err())?,
+                    );
+                    let payload_len_key = kdf__kdf16(&session.response_body_key, vec![kdf__SALT_AEAD_RESP_HEADER_PAYLOAD_KEY]);
+                    let cipher = Aes128Gcm::new_from_slice(&payload_len_key)?;
+                    let payload_len_iv: [u8; NONCE_SIZE] = kdf__kdfn(&session.response_body_iv, vec![kdf__SALT_AEAD_RESP_HEADER_PAYLOAD_IV]);
+                    dst.extend_from_slice(&cipher.encrypt(&payload_len_iv.into(), Payload { msg: &header, aad: &[] }).map_err(|e| verif_err())?);
+                    let mut encoder = AEADBodyCodec::new_encoder(request_header, session)?;
+                    let res = Self::encode(item.into(), dst, request_header, session, &mut encoder);
+                    self.encode_state = vsrv__EncodeState::Ready(Box::new(encoder));
+                    res
+                }
+                vsrv__EncodeState::Ready(ref mut encoder) => Self::encode(item.into(), dst, request_header, session, encoder),
+            }
+        } else {
+            return Err(verif_err())
+        }
+    }
+}
+
+//@@ octo-squirrel-server/src/server/vmess.rs:153-227  impl Decoder for ServerAeadCodec  sha=331d79b2c3150535
+impl ServerAeadCodec {
+
+    fn decode(&mut self, src: &mut BytesMut) -> Result<Option<InboundIn>, anyhow::Error> {
+        match self.decode_state {
+            vsrv__DecodeState::Init => {
+                if src.len() < 16 {
+                    return Ok(None);
+                }
+                let auth_id = &src[0..16];
+                if let Some(key) = auth_id__matching(auth_id, &self.keys)? {
+                    if let Some(header) = encrypt__open_header(&key, src)? {
+                        // version, body iv and key, response byte, options, padding/security, reserved, command .. fnv1a32
+                        if header.len() < 1 + 16 + 16 + 1 + 1 + 1 + 1 + 1 + 4 {
+                            return Err(verif_err())
+                        }
+                        let data = header[..header.len() - 4].to_vec();
+                        let mut header = Bytes::from(header);
+                        let version = header.get_u8();
+                        let mut request_body_iv = [0; 16];
+                        header.copy_to_slice(&mut request_body_iv);
+                        let mut request_body_key = [0; 16];
+                        header.copy_to_slice(&mut request_body_key);
+                        let response_header = header.get_u8();
+                        let option = header.get_u8();
+                        let security = header.get_u8();
+                        let padding_len = security >> 4;
+                        let security = SecurityType::from(security & 0xF);
+                        header.advance(1); // fixed 0
+                        let command = header.get_u8();
+                        if command != RequestCommand::TCP as u8 && command != RequestCommand::UDP as u8 {
+                            return Err(verif_err())
+                        }
+                        let command = if command == RequestCommand::TCP as u8 { RequestCommand::TCP } else { RequestCommand::UDP };
+                        let address = vaddress__read_address_port(&mut header)?;
+                        if header.remaining() < padding_len as usize + 4 {
+                            return Err(verif_err())
+                        }
+                        header.advance(padding_len as usize);
+                        let actual = header.get_u32();
+                        if fnv__fnv1a32(&data) != actual {
+                            return Err(verif_err())
+                        }
+                        let mut header = RequestHeader::new(version, command, RequestOption::from_mask(option), security, address, key);
+                        let mut session = ServerSession::new(request_body_iv, request_body_key, response_header);
+                        /*R2*/
+                        let mut decoder = AEADBodyCodec::new_decoder(&header, &mut session)?;
+                        let res = Self::decode_header(src, &mut header, &mut session, &mut decoder);
+                        self.connected = matches!(res, Ok(Some(_)));
+                        self.decode_state = vsrv__DecodeState::Ready(header, session, Box::new(decoder));
+                        res
+                    } else {
+                        Ok(None)
+                    }
+                } else {
+                    return Err(verif_err())
+                }
+            }
+            vsrv__DecodeState::Ready(ref mut header, ref mut session, ref mut decoder) => {
+                if src.is_empty() {
+                    Ok(None)
+                } else if self.connected {
+                    Self::decode_body(src, header, session, decoder)
+                } else {
+                    // the request header arrived without a complete first chunk: the first payload still carries the target
+                    let res = Self::decode_header(src, header, session, decoder);
+                    self.connected = matches!(res, Ok(Some(_)));
+                    res
+                }
+            }
+        }
+    }
+}
+
+//@@ octo-squirrel-client/src/client/vmess.rs:31-36  struct ClientAEADCodec  sha=598bf887866d7890
+pub struct ClientAEADCodec {
+    header: RequestHeader,
+    session: ClientSession,
+    body_encoder: Option<AEADBodyCodec>,
+    body_decoder: Option<AEADBodyCodec>,
+}
+
+//@@ octo-squirrel-client/src/client/vmess.rs:38-44  impl ClientAEADCodec  sha=4975ce78cabec317
+impl ClientAEADCodec {
+    fn new(header: RequestHeader) -> Self {
+        let session = ClientSession::new();
+        /*R2*/
+        Self { header, session, body_encoder: None, body_decoder: None }
+    }
+}
+
+//@@ octo-squirrel-client/src/client/vmess.rs:46-76  impl Encoder for ClientAEADCodec  sha=1dc1698ac9fdac04
+impl ClientAEADCodec {
+
+    fn encode(&mut self, item: BytesMut, dst: &mut BytesMut) -> Result<(), anyhow::Error> {
+        match self.body_encoder {
+            None => {
+                let mut header = BytesMut::new();
+                header.put_u8(vmessp__VERSION);
+                header.extend_from_slice(&self.session.request_body_iv);
+                header.extend_from_slice(&self.session.request_body_key);
+                header.put_u8(self.session.response_header);
+                header.put_u8(RequestOption::get_mask(&self.header.option)); // option mask
+                let padding_len = rand::rng().random_range(0..16); // dice roll 16
+                let security = self.header.security;
+                header.put_u8((padding_len << 4) | security as u8);
+                header.put_u8(0);
+                header.put_u8(self.header.command as u8);
+                vaddress__write_address_port(&self.header.address, &mut header)?; // address
+                header.extend_from_slice(&dice::roll_bytes(padding_len as usize)); // padding
+                header.put_u32(fnv__fnv1a32(&header));
+                dst.extend_from_slice(&encrypt__seal_header(&self.header.id, header.freeze())?);
+                self.body_encoder = Some(AEADBodyCodec::new_encoder(&self.header, &mut self.session)?);
+                self.encode(item, dst)
+            }
+            Some(ref mut encoder) => match self.header.command {
+                RequestCommand::TCP => encoder.encode_payload(item, dst, &mut self.session).map_err(|e| verif_err()),
+                RequestCommand::UDP => encoder.encode_packet(item, dst, &mut self.session).map_err(|e| verif_err()),
+            },
+        }
+    }
+}
+
+//@@ octo-squirrel-client/src/client/vmess.rs:78-130  impl Decoder for ClientAEADCodec  sha=eaf96c34f8a69c5d
+impl ClientAEADCodec {
+
+    fn decode(&mut self, mut src: &mut BytesMut) -> Result<Option<BytesMut>, anyhow::Error> {
+        if src.is_empty() {
+            return Ok(None);
+        }
+        match self.body_decoder {
+            None => {
+                const NONCE_SIZE: usize = 12;
+                const TAG_SIZE: usize = 16;
+                let header_length_cipher =
+                    Aes128Gcm::new_from_slice(&kdf__kdf16(&self.session.response_body_key, vec![kdf__SALT_AEAD_RESP_HEADER_LEN_KEY]))?;
+                if src.remaining() < size_of::<u16>() + TAG_SIZE {
+                    return Ok(None);
+                }
+                let header_length_iv: [u8; NONCE_SIZE] = kdf__kdfn(&self.session.response_body_iv, vec![kdf__SALT_AEAD_RESP_HEADER_LEN_IV]);
+                let mut cursor = Cursor::new(src);
+                let header_length_bytes = cursor.copy_to_bytes(size_of::<u16>() + TAG_SIZE);
+                let mut header_length_bytes = BytesMut::from(&header_length_bytes[..]);
+                header_length_cipher.decrypt_in_place(&header_length_iv.into(), &[], &mut header_length_bytes).map_err(|e| verif_err())?;
+                let header_length = header_length_bytes.get_u16() as usize;
+                if cursor.remaining() < header_length + TAG_SIZE {
+                    /*R2*/
+                    return Ok(None);
+                }
+                let position = cursor.position();
+                src = cursor.into_inner();
+                src.advance(position as usize);
+                let header_cipher =
+                    Aes128Gcm::new_from_slice(&kdf__kdf16(&self.session.response_body_key, vec![kdf__SALT_AEAD_RESP_HEADER_PAYLOAD_KEY]))?;
+                let header_iv: [u8; NONCE_SIZE] = kdf__kdfn(&self.session.response_body_iv, vec![kdf__SALT_AEAD_RESP_HEADER_PAYLOAD_IV]);
+                let mut header_bytes = src.split_to(header_length + TAG_SIZE);
+                header_cipher.decrypt_in_place(&header_iv.into(), &[], &mut header_bytes).map_err(|e| verif_err())?;
+                if header_bytes.is_empty() || self.session.response_header != header_bytes[0] {
+                    return Err(verif_err());
+                }
+                self.body_decoder = Some(AEADBodyCodec::new_decoder(&self.header, &mut self.session)?);
+                self.decode(src)
+            }
+            Some(ref mut decoder) => match self.header.command {
+                RequestCommand::TCP => decoder.decode_payload(src, &mut self.session).map_err(|e| verif_err()),
+                RequestCommand::UDP => decoder.decode_packet(src, &mut self.session).map_err(|e| verif_err()),
+            },
+        }
+    }
+}
+
+//@@ octo-squirrel-client/src/client/vmess.rs:171-173  mod udp / fn new_key  sha=d16244dc3036a560
+fn vcli__new_key(sender: SocketAddr, target: &Address) -> (SocketAddr, Address) {
+        (sender, target.clone())
+    }
+
+//@@ octo-squirrel-client/src/client/vmess.rs:217-219  mod udp / fn to_outbound_send  sha=ff2a9d687a871710
+fn vcli__to_outbound_send(item: DatagramPacket, verif_arg2: SocketAddr) -> BytesMut {
+        item.0
+    }
+
+//@@ octo-squirrel-client/src/client/vmess.rs:221-223  mod udp / fn to_inbound_recv  sha=3e9de2d53df4a66b
+fn vcli__to_inbound_recv(item: BytesMut, recipient: &Address, sender: SocketAddr) -> (DatagramPacket, SocketAddr) {
+        ((item, recipient.clone()), sender)
+    }
